@@ -255,11 +255,16 @@ class Body:
 
     def _proj_path(self, proj):
         out = []
+        ren = self.facts.get("_field_renames_q") or {}
         for e in proj:
             if e == "*":
                 continue
             if e.startswith("."):
                 nm = e.split(":", 1)[1] if ":" in e else e[1:]
+                if "@" in nm:
+                    nm, adt = nm.split("@", 1)
+                    if ren:
+                        nm = ren.get((norm(adt), nm), nm)
                 out.append(nm)
             elif e.startswith("@"):
                 out.append(e)
@@ -648,19 +653,41 @@ class Program:
             return parent, frozenset([("unk", "upvar-index", ())])
         return parent, parent.operand_prov(ops[k])
 
-    def global_cell(self, body, term):
+    def callers_of(self, fnbody):
+        """[(caller body (analysis view), Call)] for a crate-local fn, from the un-inlined bodies."""
+        if not hasattr(self, "_callers_idx"):
+            idx = defaultdict(list)
+            for x in self.orig.values():
+                for c in x.calls:
+                    if not c.indirect and c.local:
+                        idx[c.path].append((self.bodies.get(x.id, x), c))
+            self._callers_idx = idx
+        return self._callers_idx.get(fnbody.nid, [])
+
+    def global_cell(self, body, term, through_helpers=False):
         """Resolve a provenance term through closure creation sites up to its allocation
-        root or a function parameter.  Returns a set of (body_id, rootkind, rootdata, path)."""
+        root or a function parameter; with through_helpers, a parameter of a private helper that is
+        inlined into its callers is replaced by what the callers pass.  Returns a set of
+        (body_id, rootkind, rootdata, path)."""
         out = set()
         seen = set()
         st = [(body, term)]
         while st:
             b, t = st.pop()
             key = (b.id, t)
-            if key in seen:
+            if key in seen or len(seen) > 400:
                 continue
             seen.add(key)
             rk, rd, path = t
+            if through_helpers and rk == "param" and b.id in self.absorbed and b.kind in ("fn", "assoc"):
+                cs = self.callers_of(b)
+                if cs and all(rd - 1 < len(c.args) for (_, c) in cs):
+                    for (cb, c) in cs:
+                        for t2 in cb.operand_prov(c.args[rd - 1]):
+                            st.append((cb, (t2[0], t2[1], t2[2] + path)))
+                    if through_helpers == "add":
+                        out.add((b.id, rk, rd, path))     # keep the helper-side term too (field names)
+                    continue
             if rk == "upvar":
                 parent, provs = self.upvar_origin(b, rd)
                 if parent is None:
